@@ -1,9 +1,11 @@
 (* C16 -- instrumentation and middlewares see every field exactly once,
    properly nested.  Statements only; proofs are in Proofs/TraceProofs.v.
    Spec: Spec/TraceSpec.v (trace_spec / trace_ok).  Model: Exec/TraceModel.v. *)
-From Coq Require Import List NArith Arith Bool.
+From Coq Require Import List NArith ZArith Arith Bool.
 Import ListNotations.
 From PyGql Require Import Spec.TraceSpec Exec.TraceModel Proofs.TraceProofs.
+From PyGql Require Import Exec.RuntimeMachine Exec.TraceDeferred Proofs.TraceDeferredProofs.
+From PyGql Require Import Exec.TraceTracer Proofs.TraceTracerProofs.
 
 (* The executable checker used by the correspondence decides the declarative
    specification, for every configuration and every event sequence. *)
@@ -97,6 +99,55 @@ Proof.
 Qed.
 Print Assumptions C16_interleave.
 
+(* The deferred executor (thread pool / asyncio), as modelled by the C08/C09
+   machine Exec/RuntimeMachine.v: in every complete run -- every program whose
+   resolvers raise nothing but ResolverError, every admissible schedule of
+   completions, every choice of calls that complete eagerly inside submit, any
+   nesting depth of deferred values, queries and (serial) mutations -- the
+   resolver events that the machine logs are a linearisation of the program's
+   obligations: per field  call, level 0 done, level 1 submitted, .., last
+   level done  in this order and exactly once; the sub-fields of a field only
+   after its last level is done; sibling fields interleaved arbitrarily
+   (top-level mutation fields: one after the other). *)
+Theorem C16_machine_linearises : forall sigma pr s,
+  crash_free pr -> run sigma pr = Some s -> pending (ms s) = [] ->
+  sp_lin (ob_prog pr) (events_of (log (ms s))).
+Proof. exact machine_linearises. Qed.
+Print Assumptions C16_machine_linearises.
+
+(* ... hence the machine's log, decorated with the field hooks where
+   Executor.resolve_field fires them (on_field_start just before the call is
+   made / submitted, on_field_end as soon as the last level of the field's value
+   is there; Exec/TraceDeferred.v [dec]) and placed between the stage prefix and
+   suffix of an executed request, satisfies the specification: every resolved
+   field exactly one FieldStart, Invoke, Return|Raise, FieldEnd in this order,
+   sub-fields after their parent's Return -- in every completion order. *)
+Theorem C16_field_once_deferred : forall sigma pr s text oc,
+  crash_free pr -> NoDup (map nd_path (nodes_prog pr)) -> is_exec oc = true ->
+  run sigma pr = Some s -> pending (ms s) = [] ->
+  let c := cfg_prog text oc pr in
+  let t := stage_pre c ++ decorate (recs_prog pr) (log (ms s)) ++ stage_post c in
+  trace_spec c t /\ trace_ok c t = true.
+Proof.
+  intros sigma pr s text oc H1 H2 H3 H4 H5 c t.
+  pose proof (deferred_ok sigma pr s text oc H1 H2 H3 H4 H5) as H.
+  split; [apply trace_ok_decides|]; exact H.
+Qed.
+Print Assumptions C16_field_once_deferred.
+
+(* ApolloTracer / TimingTracer at any position i of the instrumentation stack:
+   on every trace that satisfies the specification its hooks never fail
+   (on_field_end never meets a field that was not started) and the resolver
+   list of its payload is a function of the event word: exactly the resolved
+   fields, once each, in the order their start hook fired, every one with its
+   end set (started fields = ended fields). *)
+Theorem C16_apollo : forall c t i, trace_spec c t -> i < c_k c ->
+  tracer_fields i t = Some (map (fun p => (p, true)) (start_paths i t))
+  /\ NoDup (start_paths i t)
+  /\ (forall p, In p (start_paths i t) <-> In p (map nd_path (nodes_of c))).
+Proof. exact apollo_resolvers. Qed.
+Print Assumptions C16_apollo.
+
 (* ---------------------------------------------------------------- examples *)
 Local Open Scope N_scope.
 
@@ -148,3 +199,52 @@ Example C16_unrepaired_syntax_error_rejected :
   /\ trace_ok (mkConfig 1 0 true OCSyntax true []) (process_unrepaired (stack 1) true OCSyntax []) = false
   /\ trace_ok (mkConfig 1 0 true OCSyntax true []) (process (stack 1) true OCSyntax []) = true.
 Proof. vm_compute. repeat split; reflexivity. Qed.
+
+(* non-vacuity of C16_field_once_deferred: a query with nested deferred values
+   and a ResolverError under a non-trivial completion order, and a mutation
+   with a list, eager completions and two levels of deferred values *)
+Example C16_example_deferred :
+  let leaf k d z := Fld k d false (BInt z) in
+  let pr := Prog false (FCons (Fld 0 (Some (O, O)) false (BObj (FCons (leaf 1 (Some (1%nat, O)) 11%Z) (FCons (leaf 2 None 12%Z) FNil))))
+                       (FCons (Fld 3 (Some (O, O)) true BErr) (FCons (leaf 4 (Some (O, O)) 14%Z) FNil))) in
+  let sigma : list tid := [([4], O); ([0], O); ([0; 1], O); ([3], O); ([0; 1], 1%nat)] in
+  crash_free pr /\ NoDup (map nd_path (nodes_prog pr)) /\
+  match run sigma pr with
+  | Some s => pending (ms s) = [] /\
+      decorate (recs_prog pr) (log (ms s)) =
+      [FieldStart 0 [0]; FieldStart 0 [3]; FieldStart 0 [4]; Invoke [4]; Return [4]; FieldEnd 0 [4];
+       Invoke [0]; Return [0]; FieldEnd 0 [0]; FieldStart 0 [0; 1]; FieldStart 0 [0; 2];
+       Invoke [0; 2]; Return [0; 2]; FieldEnd 0 [0; 2]; Invoke [3]; Raise [3]; FieldEnd 0 [3];
+       Invoke [0; 1]; Return [0; 1]; FieldEnd 0 [0; 1]]
+  | None => False
+  end.
+Proof.
+  split; [reflexivity|]. split; [repeat constructor; cbn; intuition discriminate|].
+  vm_compute. split; reflexivity.
+Qed.
+
+Example C16_example_deferred_mutation :
+  let leaf k d z := Fld k d false (BInt z) in
+  let pr := Prog true (FCons (Fld 0 (Some (1%nat, 1%nat)) false
+                                  (BList false (ICons (ItObj (FCons (leaf 1 (Some (O, O)) 1%Z) FNil))
+                                               (ICons ItNull (ICons (ItObj (FCons (leaf 1 None 1%Z) FNil)) INil)))))
+                      (FCons (leaf 5 (Some (O, 1%nat)) 1%Z) (FCons (leaf 6 (Some (O, O)) 1%Z) FNil))) in
+  let c := cfg_prog true OCSuccess pr in
+  crash_free pr /\ NoDup (map nd_path (nodes_prog pr)) /\
+  match run [([0], 1%nat); ([0; 0; 1], O); ([6], O)] pr with
+  | Some s => pending (ms s) = [] /\
+              trace_ok c (stage_pre c ++ decorate (recs_prog pr) (log (ms s)) ++ stage_post c) = true
+  | None => False
+  end.
+Proof.
+  split; [reflexivity|]. split; [repeat constructor; cbn; intuition discriminate|].
+  vm_compute. split; reflexivity.
+Qed.
+
+(* the tracer model on the blocking model's trace, as third of three stacked
+   instrumentations; and its failure (KeyError) on a trace outside the spec *)
+Example C16_example_apollo :
+  tracer_fields 2 (request_blocking 3 1 (fun _ => O) true OCPartial ex_tree)
+    = Some [([0], true); ([0; 2], true); ([0; 4], true); ([6], true)]
+  /\ tracer_fields 0 [FieldEnd 0 [0]; FieldStart 0 [0]] = None.
+Proof. vm_compute. split; reflexivity. Qed.
